@@ -23,6 +23,24 @@ TSAN_ENV = {
 
 _REPORT = re.compile(r"^(?:==\d+==\s*)?(?:ERROR|WARNING): (AddressSanitizer|ThreadSanitizer|LeakSanitizer|UndefinedBehaviorSanitizer): ([^\n]*)", re.M)
 _FRAME = re.compile(r"#\d+ 0x[0-9a-f]+ in (\S+) (/repo/src/[^\s:]+)")
+# ThreadSanitizer prints "#0 <path::to::Type<Args>>::function /repo/src/file.rs:line:col (binary+0x..)"
+_TSAN_FRAME = re.compile(r"^\s*#\d+ (.+?) /repo/src/([^\s:]+):\d+", re.M)
+
+
+def _short_fn(name):
+    """Last path segment of a (possibly generic, possibly closure) Rust function name."""
+    name = re.sub(r"::h[0-9a-f]{16}$", "", name.strip())
+    name = re.sub(r"::\{closure#\d+\}", "", name)
+    depth = 0
+    last = 0
+    for i, ch in enumerate(name):
+        if ch == "<":
+            depth += 1
+        elif ch == ">":
+            depth -= 1
+        elif ch == ":" and depth == 0 and name[i - 1:i] == ":":
+            last = i + 1
+    return re.sub(r"[^A-Za-z0-9_]", "", name[last:])[:40] or "?"
 
 
 def scan(text):
@@ -38,6 +56,12 @@ def scan(text):
         # races: both stacks belong to the signature
         if m.group(1) == "ThreadSanitizer":
             frames = [re.sub(r"::h[0-9a-f]{16}$", "", f[0]) for f in _FRAME.findall(block)]
+            if not frames:
+                # first in-repo frame of each stack: the stacks are separated by blank lines
+                for stack in re.split(r"\n\s*\n", block):
+                    fm2 = _TSAN_FRAME.search(stack)
+                    if fm2:
+                        frames.append("%s:%s" % (fm2.group(2).split("/")[-1], _short_fn(fm2.group(1))))
             uniq = []
             for f in frames:
                 if f not in uniq:
